@@ -99,6 +99,17 @@ pub fn exec(line: &str, _model: &mut Model) -> Option<Exec> {
                         Some(v) => e.oracle_fail = Some(format!("IPPT {} differs from the RFC 9173 3.7 concatenation {}", clip(&hex(v)), clip(&hex(&want)))),
                         None => e.oracle_fail = Some("IPPT construction panics".into()),
                     }
+                    // objects that did not start out empty: target contents preset through the builder, or an object
+                    // that went through serde — the plaintext is a function of flags, primary, header and target only
+                    let preset: Vec<u8> = (0..1 + (line.len() % 5)).map(|i| (i as u8).wrapping_mul(61) ^ 0x43).collect();
+                    let via_builder = no_panic(|| {
+                        let mut bd = IpptBuilder::default().scope_flags(flags).security_target_contents(preset.clone());
+                        if let Some(p) = prim { bd = bd.primary_block(p.clone()); }
+                        if let Some(h) = hdr { bd = bd.security_header(h); }
+                        bd.build().create(tg) });
+                    if e.oracle_fail.is_none() && via_builder.as_ref() != Some(&want) {
+                        e.oracle_fail = Some(format!("an IPPT object built with preset target contents yields {} instead of the RFC 9173 3.7 concatenation {}", via_builder.map(|v| clip(&hex(&v))).unwrap_or("a panic".into()), clip(&hex(&want))));
+                    }
                 }
                 Some(e)
             } else {
